@@ -96,7 +96,8 @@ def c10_lattice():
 def c13_lattice():
     cases = []
     n = 0
-    for tv in ["", "pub ", "pub(crate) ", "pub(super) ", "pub(in crate::a) ", "pub(self) "]:
+    for tv in ["", "pub ", "pub(crate) ", "pub(super) ", "pub(in crate::a) ", "pub(self) ", "pub(in super) ", "pub(in self) ",
+               "pub(in super::super) ", "pub(in super::x) ", "pub(in ::a) "]:
         for fv in ["", "pub ", "pub(crate) ", "pub(super) ", "pub(in crate::a::b) "]:
             cases.append(("v%d_fn" % n, "plain", tv + "Foo", fv + "fn foo<D>(d: &D) {}", ""))
             cases.append(("v%d_mod" % (n + 1), "plain", tv + "Foo", fv + "mod m { pub fn foo<D>(d: &D) {} }", ""))
